@@ -427,7 +427,11 @@ def fam_assign(ctx):
         else:
             np.random.seed(t.draw(1000))
             est = e['kmedoids'].KMedoids(metric, n_clusters=K, n_iters=t.irange(1, 2))
-        ctx.sut(est.fit, P.X.copy())
+            # warm start from a k-centers state: the estimator's cold start seeds itself from OS entropy, which would make the
+            # run unrepeatable
+            kc = ctx.sut(e['kcenters'].kcenters, P.X.copy(), metric, n_clusters=K)
+            km_warm = dict(assignments=np.array(kc.assignments), distances=np.array(kc.distances), cluster_center_inds=[int(c) for c in kc.center_indices])
+        ctx.sut(est.fit, P.X.copy(), **(km_warm if algo == 'kmedoids' else {}))
         # new data, not the training data
         Y = M.gen_points(t, t.irange(1, 20), P.dim, P.dtype)
         if P.metric_name.startswith('callable') and P.dtype == 'float32' and t.flag():
@@ -451,7 +455,12 @@ def fam_assign(ctx):
         if t.flag():
             # the same estimator object is fitted again on other data: predictions follow the new fit
             X2 = M.gen_points(t, t.irange(max(2, K), 20), P.dim, P.dtype)     # k-medoids needs at least K frames
-            ctx.sut(est.fit, X2.copy())
+            if algo == 'kmedoids':
+                kc2 = ctx.sut(e['kcenters'].kcenters, X2.copy(), metric, n_clusters=K)
+                ctx.sut(est.fit, X2.copy(), assignments=np.array(kc2.assignments), distances=np.array(kc2.distances),
+                        cluster_center_inds=[int(c) for c in kc2.center_indices])
+            else:
+                ctx.sut(est.fit, X2.copy())
             res2 = ctx.sut(est.predict, Y)
             Cs2 = [np.asarray(c) for c in est.centers_]
             D2 = np.array([model(Y, c) for c in Cs2])
